@@ -79,6 +79,8 @@ type Node struct {
 	Idx  int
 	ID   string
 	Addr string
+	// Stalled: the node reads requests but sends no answer until it is cleared (controlled executions only).
+	Stalled bool
 	// ListenAddr, when set, is the numeric address the node listens on while Addr is a host name.
 	ListenAddr string
 	MasterOf   *Node // nil for masters
@@ -341,6 +343,10 @@ func (n *Node) serve(conn *vnet.VConn, id int) {
 		})
 		if silent {
 			continue
+		}
+		if n.Stalled && sched.E != nil {
+			// the node has the request but is busy: its answers (computed in order) leave when it is released
+			sched.Wait("node-stalled", n, func() bool { return !n.Stalled })
 		}
 		if n.C.HoldCluster && len(sargs) > 0 && strings.EqualFold(sargs[0], "cluster") {
 			// the answer (computed from the layout as it is now) is in flight until the harness releases it
